@@ -226,6 +226,8 @@ fn ign_lint(lang: Lang, doc: &Document, lints: &[Lint]) -> Option<Lint> {
 static FRESH: once_cell::sync::Lazy<Mutex<HashMap<(Lang, String, Facets), Arc<Value>>>> =
     once_cell::sync::Lazy::new(|| Mutex::new(HashMap::new()));
 static FRESH_COMPUTED: std::sync::atomic::AtomicU64 = std::sync::atomic::AtomicU64::new(0);
+/// publications the decoder's long-lived LintGroups could not reproduce but brand-new ones could
+static WARM_MISSES: std::sync::atomic::AtomicU64 = std::sync::atomic::AtomicU64::new(0);
 
 /// Diagnostics of `text` computed from scratch (new dictionary, new `Document`, new `LintGroup`)
 /// under the given facets — the specification side of the oracle. Results are memoised (each memo
@@ -390,7 +392,14 @@ fn decode(lang: Lang, d: &Value, cands: &[(usize, String)]) -> Dec {
         ident: !flagged(IDENT),
         ign: !flagged(IGN),
     };
-    let hits: Vec<usize> = cands.iter().filter(|(_, text)| *warm_diags(lang, text, &f) == *d).map(|c| c.0).collect();
+    let mut hits: Vec<usize> = cands.iter().filter(|(_, text)| *warm_diags(lang, text, &f) == *d).map(|c| c.0).collect();
+    if hits.is_empty() {
+        // never let a long-lived LintGroup of the DECODER decide: retry with brand-new ones
+        hits = cands.iter().filter(|(_, text)| *fresh_diags(lang, text, &f) == *d).map(|c| c.0).collect();
+        if !hits.is_empty() {
+            WARM_MISSES.fetch_add(1, std::sync::atomic::Ordering::Relaxed);
+        }
+    }
     if hits.len() == 1 {
         return Dec::Diag { ver: hits[0], f };
     }
@@ -444,6 +453,9 @@ pub enum Act {
     /// the whole document directory is removed (its URI is a prefix of every document URI)
     DeleteDir,
     Cfg { k: u8 },
+    /// the client's configuration becomes version `k` WITHOUT a notification: from now on its
+    /// `workspace/configuration` answers carry `k` (a `Cfg { k }` may or may not follow)
+    SetCfg { k: u8 },
     AddUser { w: usize, u: usize },
     AddFile { w: usize, u: usize },
     Ignore { u: usize },
@@ -453,7 +465,7 @@ pub enum Act {
 
 impl Act {
     fn is_msg(&self) -> bool {
-        !matches!(self, Act::Write { .. } | Act::Reply { .. })
+        !matches!(self, Act::Write { .. } | Act::Reply { .. } | Act::SetCfg { .. })
     }
     fn show(&self, k_now: u8, order: Option<&Vec<usize>>) -> String {
         match self {
@@ -469,6 +481,7 @@ impl Act {
                 k,
                 order.map(|o| o.iter().map(|x| x.to_string()).collect::<Vec<_>>().join(",")).unwrap_or_default()
             ),
+            Act::SetCfg { k } => format!("K:{}", k),
             Act::AddUser { w, u } => format!("AU:{}:{}", w, u),
             Act::AddFile { w, u } => format!("AF:{}:{}", w, u),
             Act::Ignore { u } => format!("I:{}", u),
@@ -490,6 +503,7 @@ impl Act {
             "D" => Act::Delete { u: n(1)? },
             "DD" => Act::DeleteDir,
             "G" => Act::Cfg { k: n(1)? as u8 },
+            "K" => Act::SetCfg { k: n(1)? as u8 },
             "AU" => Act::AddUser { w: n(1)?, u: n(2)? },
             "AF" => Act::AddFile { w: n(1)?, u: n(2)? },
             "I" => Act::Ignore { u: n(1)? },
@@ -545,6 +559,8 @@ struct World {
     disk: Vec<Option<(usize, usize)>>, // (ver, idents) on disk
     ign: Vec<bool>,
     ck: u8,
+    /// the client's configuration changed and no didChangeConfiguration has been SENT since
+    silent: bool,
     next_ver: Vec<usize>,
     cands: Vec<Vec<(usize, String)>>, // every text that ever existed per URI
 }
@@ -576,7 +592,7 @@ pub static T_SERVER: std::sync::atomic::AtomicU64 = std::sync::atomic::AtomicU64
 pub static T_DECODE: std::sync::atomic::AtomicU64 = std::sync::atomic::AtomicU64::new(0);
 pub static T_START: std::sync::atomic::AtomicU64 = std::sync::atomic::AtomicU64::new(0);
 
-fn run_case(sdir: &Path, langs: &[Lang], mut script: Script, origin: &str) -> CaseOut {
+fn run_case(sdir: &Path, langs: &[Lang], mut script: Script, origin: &str, deadline_s: u64) -> CaseOut {
     let t_case = std::time::Instant::now();
     let _ = std::fs::remove_dir_all(sdir);
     std::fs::create_dir_all(sdir.join("docs")).unwrap();
@@ -589,6 +605,7 @@ fn run_case(sdir: &Path, langs: &[Lang], mut script: Script, origin: &str) -> Ca
         disk: vec![None; n],
         ign: vec![false; n],
         ck: 0,
+        silent: false,
         next_ver: vec![0; n],
         cands: vec![vec![]; n],
     };
@@ -621,7 +638,7 @@ fn run_case(sdir: &Path, langs: &[Lang], mut script: Script, origin: &str) -> Ca
             };
         }
     };
-    ls.max_wait = std::time::Duration::from_secs(15);
+    ls.max_wait = std::time::Duration::from_secs(deadline_s);
     T_START.fetch_add(t_case.elapsed().as_micros() as u64, std::sync::atomic::Ordering::Relaxed);
     let res: Result<(), LsError> = (|| {
         ls.initialize(&cfg_json(0, sdir))?;
@@ -721,8 +738,15 @@ fn run_case(sdir: &Path, langs: &[Lang], mut script: Script, origin: &str) -> Ca
                     new_handler = Some(hr((0..n).collect(), vec![], false, false));
                     ls.notify("workspace/didChangeWatchedFiles", deleted(&dir_uri))?;
                 }
+                Act::SetCfg { k } => {
+                    if w.ck != *k {
+                        w.silent = true;
+                    }
+                    w.ck = *k;
+                }
                 Act::Cfg { k } => {
                     w.ck = *k;
+                    w.silent = false;
                     new_handler = Some(hr((0..n).collect(), (0..n).collect(), true, false));
                     ls.notify("workspace/didChangeConfiguration", json!({"settings": cfg_json(*k, sdir)}))?;
                 }
@@ -789,6 +813,11 @@ fn run_case(sdir: &Path, langs: &[Lang], mut script: Script, origin: &str) -> Ca
                     attribution_ok = false;
                 }
             } else if let Act::Reply { idx } = &act {
+                if *idx >= owners.len() {
+                    // the mirror lost track (cannot happen while `settle` is sound): broken correspondence
+                    attribution_ok = false;
+                    continue;
+                }
                 let hi = owners.remove(*idx);
                 let mut fresh_reqs = after as i64 - (before as i64 - 1);
                 if handlers[hi].is_cfg {
@@ -844,7 +873,25 @@ fn run_case(sdir: &Path, langs: &[Lang], mut script: Script, origin: &str) -> Ca
     let mut cfg_orders: HashMap<usize, Vec<usize>> = HashMap::new();
     for h in &handlers {
         if h.is_cfg {
-            cfg_orders.insert(h.act, h.order.clone());
+            // The HashMap iteration order is the implementation's free choice and differs from run to
+            // run. It can matter when another handler was alive during this one's lifetime, when the
+            // client's configuration changed silently meanwhile (the replies then carry another
+            // configuration than the notification) or when a file appeared or disappeared meanwhile;
+            // otherwise every order gives the same publications, so a canonical (sorted) one
+            // is handed to the model and the op line stays a function of (seed, history index).
+            // "alone": between its notification and its completion the client did nothing but answer
+            // its configuration requests (no other message, no silent configuration change, no file
+            // written or removed)
+            let end = h.end.unwrap_or(usize::MAX);
+            let alone = acts.iter().enumerate().all(|(i, a)| i <= h.act || i > end || matches!(a, Act::Reply { .. }))
+                && !handlers.iter().any(|g| g.act < h.act && h.act < g.end.unwrap_or(usize::MAX));
+            let mut o = h.order.clone();
+            if alone {
+                o.sort();
+            } else if o.len() >= 2 {
+                tags.insert("cfg-order-observed".into());
+            }
+            cfg_orders.insert(h.act, o);
         }
     }
     let op = format!(
@@ -1040,9 +1087,18 @@ fn run_case(sdir: &Path, langs: &[Lang], mut script: Script, origin: &str) -> Ca
             unexplained.remove("ident");
             classes.push("c09-ident-dict-dropped");
         }
+        // a configuration the server has only learnt through `workspace/configuration` answers (no
+        // didChangeConfiguration since the client's configuration changed) is applied piecemeal
+        let cfg_facets = diff.contains("sev") || diff.contains("lint") || diff.contains("parse");
+        if w.silent && cfg_facets {
+            unexplained.remove("sev");
+            unexplained.remove("lint");
+            unexplained.remove("parse");
+            classes.push("c09-linter-config-only-on-notification");
+        }
         let class = if unexplained.is_empty() && !classes.is_empty() { classes[0] } else { "c09-stale-publication" };
         let desc = format!(
-            "URI {} ({}, {}): last publication {} but the newest text / current configuration / dictionaries give {}; differing: {:?}{}{}",
+            "URI {} ({}, {}): last publication {} but the newest text / current configuration / dictionaries give {}; differing: {:?}{}{}{}",
             u,
             langs[u].id(),
             if open { "open" } else { "closed" },
@@ -1051,6 +1107,7 @@ fn run_case(sdir: &Path, langs: &[Lang], mut script: Script, origin: &str) -> Ca
             diff,
             ov.map(|(a, b)| format!("; handlers sent by actions #{} and #{} overlap", a, b)).unwrap_or_default(),
             rr.first().or(rm.first()).map(|h| format!("; the handler sent by action #{} re-read the file while buffer ≠ disk", h.act)).unwrap_or_default(),
+            if w.silent { "; the client's configuration changed and no didChangeConfiguration has been sent since" } else { "" },
         );
         failures.push((class.to_string(), desc));
         for c in &classes {
@@ -1076,6 +1133,20 @@ fn run_case(sdir: &Path, langs: &[Lang], mut script: Script, origin: &str) -> Ca
     CaseOut { op, imp, input, failures, tags: tags.into_iter().collect(), nontrivial, attribution_ok, timeout, n_actions: acts.len(), n_pubs }
 }
 
+/// a configuration event: usually `didChangeConfiguration` to a new version; sometimes the client's
+/// configuration changes SILENTLY (its `workspace/configuration` answers change, the notification
+/// comes later or never); after a silent change the notification usually announces that version
+fn next_cfg(w: &World, rng: &mut Rng) -> Act {
+    let other = ((w.ck as usize + 1 + rng.below(3)) % 4) as u8;
+    if w.silent {
+        if rng.chance(7, 10) { Act::Cfg { k: w.ck } } else { Act::Cfg { k: other } }
+    } else if rng.chance(3, 10) {
+        Act::SetCfg { k: other }
+    } else {
+        Act::Cfg { k: other }
+    }
+}
+
 /// next client message of a random history
 fn gen_msg(
     w: &mut World,
@@ -1091,6 +1162,10 @@ fn gen_msg(
     let busy = |u: usize| owners.iter().chain(queued.iter()).any(|h| handlers[*h].touches.contains(&u));
     // a pipeline that is full (4 handlers waiting) only takes single-pull messages
     let full = pending >= 4;
+    // stress option (not used by `check`): many configuration handlers overlapping other handlers
+    if std::env::var("C09_FOCUS_CFG").is_ok() && !full && queued.is_empty() && rng.chance(1, 4) {
+        return next_cfg(w, rng);
+    }
     for _ in 0..50 {
         let u = rng.below(n);
         let open = w.buf[u].is_some();
@@ -1117,7 +1192,7 @@ fn gen_msg(
                 }
                 75..=79 => Act::Save { u },
                 80..=84 => Act::Close { u },
-                85..=92 => Act::Cfg { k: ((w.ck as usize + 1 + rng.below(3)) % 4) as u8 },
+                85..=92 => next_cfg(w, rng),
                 93..=96 => Act::AddUser { w: 1 + rng.below(2), u },
                 _ => Act::Delete { u },
             }
@@ -1144,7 +1219,7 @@ fn gen_msg(
                             return Act::Write { u: v, ver, idents };
                         }
                     }
-                    Act::Cfg { k: ((w.ck as usize + 1 + rng.below(3)) % 4) as u8 }
+                    next_cfg(w, rng)
                 }
                 65..=74 => {
                     if w.buf[u] != w.disk[u] && rng.chance(3, 4) {
@@ -1205,6 +1280,12 @@ fn corpus() -> Vec<(&'static str, Vec<Lang>, Vec<Act>)> {
         ("witness-user-dict-other-docs", vec![Plain, Plain], parse_acts("W:0:0:0 O:0:0:0 R:0 W:1:0:0 O:1:0:0 R:0 AU:1:0 R:0")),
         // the identifier dictionary is merged on the first update and dropped by the second
         ("witness-ident-dict-dropped", vec![Rust], parse_acts("W:0:0:1 O:0:0:1 R:0 C:0:1:1 R:0")),
+        // the client's configuration changes silently (its answers carry version 1): the next update
+        // takes severity and parser options from it but keeps the LintGroup built under version 0
+        ("witness-linter-config-only-on-notification", vec![Markdown], parse_acts("W:0:0:0 O:0:0:0 R:0 K:1 C:0:1:0 R:0")),
+        // … and once didChangeConfiguration announces it, EVERYTHING must be current (hard requirement)
+        ("clean-silent-config-then-notification", vec![Markdown], parse_acts("W:0:0:0 O:0:0:0 R:0 K:1 C:0:1:0 R:0 W:0:1:0 G:1: R:0")),
+        ("clean-silent-config-save-then-notification", vec![Plain, Markdown], parse_acts("W:0:0:0 O:0:0:0 R:0 W:1:0:0 O:1:0:0 R:0 K:3 S:0 R:0 AF:3:1 R:0 G:3: R:0 R:0")),
         // more than four handlers in flight: the fifth waits for a slot
         ("five-in-flight", vec![Plain], parse_acts("W:0:0:0 O:0:0:0 R:0 C:0:1:0 C:0:2:0 C:0:3:0 C:0:4:0 C:0:5:0 R:0 R:0 R:0 R:0 R:0")),
         ("unknown-language", vec![Unknown, Plain], parse_acts("O:0:0:0 R:0 C:0:1:0 R:0 O:1:0:0 R:0")),
@@ -1214,6 +1295,19 @@ fn corpus() -> Vec<(&'static str, Vec<Lang>, Vec<Act>)> {
 // ------------------------------------------------------------------------------------------
 // run
 // ------------------------------------------------------------------------------------------
+
+/// `run_case`, and once more with four times the deadline if a wait on the server timed out: a
+/// deadline missed on a loaded machine is not a correspondence failure. Only a history that times
+/// out twice is reported (as a hang of the server).
+fn run_case_retry(sdir: &Path, langs: &[Lang], script: impl Fn() -> Script, origin: &str) -> CaseOut {
+    let c = run_case(sdir, langs, script(), origin, 15);
+    if c.timeout.as_ref().map(|t| t.starts_with("timeout")).unwrap_or(false) {
+        let mut c2 = run_case(sdir, langs, script(), origin, 60);
+        c2.tags.push("inconclusive-first-attempt:deadline".into());
+        return c2;
+    }
+    c
+}
 
 fn record(sess: &mut Session, c: CaseOut) {
     let case = sess.k(&c.op, &c.imp);
@@ -1248,7 +1342,7 @@ pub fn run(ctx: &Ctx) {
     if let Some(v) = replay_input(ctx) {
         let langs: Vec<Lang> = v["langs"].as_array().map(|a| a.iter().filter_map(|x| x.as_str().and_then(Lang::from_code)).collect()).unwrap_or_default();
         let acts: Vec<Act> = v["actions"].as_array().map(|a| a.iter().filter_map(|x| x.as_str().and_then(Act::parse)).collect()).unwrap_or_default();
-        let c = run_case(&home.join("replay"), &langs, Script::Fixed(acts), "replay");
+        let c = run_case_retry(&home.join("replay"), &langs, || Script::Fixed(acts.clone()), "replay");
         record(&mut sess, c);
         sess.nontrivial("replay-a");
         sess.finish("replay of one recorded history", false, json!({}));
@@ -1256,7 +1350,7 @@ pub fn run(ctx: &Ctx) {
     }
     // 1. corpus (sequentially: the witnesses of the recorded findings are among them)
     for (i, (name, langs, acts)) in corpus().into_iter().enumerate() {
-        let c = run_case(&home.join(format!("c{}", i)), &langs, Script::Fixed(acts), "corpus");
+        let c = run_case_retry(&home.join(format!("c{}", i)), &langs, || Script::Fixed(acts.clone()), "corpus");
         sess.count(&format!("corpus:{}", name));
         record(&mut sess, c);
     }
@@ -1271,7 +1365,8 @@ pub fn run(ctx: &Ctx) {
             return None;
         }
         let mut rng = Rng::new(seed.wrapping_mul(0x2545F4914F6CDD1D) ^ (i as u64).wrapping_mul(0x9E3779B97F4A7C15));
-        let n = 1 + rng.below(3);
+        let focus = std::env::var("C09_FOCUS_CFG").is_ok();
+        let n = if focus { 2 + rng.below(2) } else { 1 + rng.below(3) };
         let langs: Vec<Lang> = (0..n)
             .map(|_| match rng.below(16) {
                 0..=5 => Lang::Plain,
@@ -1280,10 +1375,11 @@ pub fn run(ctx: &Ctx) {
                 _ => Lang::Unknown,
             })
             .collect();
-        let concurrent = rng.chance(3, 5);
+        let concurrent = focus || rng.chance(3, 5);
         let msgs = rng.range(4, 14);
         let dir = home.join(format!("r{}", i));
-        let c = run_case(&dir, &langs, Script::Random { rng: rng.fork(), concurrent, msgs }, if concurrent { "random-concurrent" } else { "random-sequential" });
+        let script_rng = rng.fork();
+        let c = run_case_retry(&dir, &langs, || Script::Random { rng: script_rng.clone(), concurrent, msgs }, if concurrent { "random-concurrent" } else { "random-sequential" });
         let _ = std::fs::remove_dir_all(&dir);
         Some(c)
     });
@@ -1299,6 +1395,7 @@ pub fn run(ctx: &Ctx) {
         json!({
             "histories_planned": total, "histories_run": done + corpus().len(),
             "fresh_lint_computations": fresh_n,
+            "decoder_warm_lintgroup_misses": WARM_MISSES.load(std::sync::atomic::Ordering::Relaxed),
             "threads": threads,
             "thread_seconds": {"start": T_START.load(std::sync::atomic::Ordering::Relaxed) as f64 / 1e6, "server_incl_start": T_SERVER.load(std::sync::atomic::Ordering::Relaxed) as f64 / 1e6, "decode_and_oracle": T_DECODE.load(std::sync::atomic::Ordering::Relaxed) as f64 / 1e6},
             "decode": "each publication is decoded into (text version, severity cfg, linter cfg, parser bit, accepted dictionary words, ident dictionary, ignore) and re-encoded by an independent pipeline; the re-encoding must equal the published JSON",
